@@ -100,15 +100,10 @@ def monthLoop : List Nat → Nat → Int → Outcome (Nat × Int)
   | dm :: rest, months, remdays =>
     if (dm : Int) ≤ remdays then monthLoop rest (months + 1) (remdays - dm) else .ok (months, remdays)
 
-/-- `Timestamp::to_parts` (:262-337) for the instant `t` ns. -/
-def toPartsO (t : Nat) : Outcome Parts :=
-  let secs := t / NANOS
-  let nanos := t % NANOS
-  -- LEAPOCH_SECS / 86400 = 11017 (2000-03-01)
-  let days0 : Int := ((secs / 86400 : Nat) : Int) - 11017
-  let remsecs0 : Int := ((secs % 86400 : Nat) : Int)
-  let remsecs := if remsecs0 < 0 then remsecs0 + 86400 else remsecs0
-  let days := if remsecs0 < 0 then days0 - 1 else days0
+/-- The date half of `to_parts` (:273-321): from `days` (days since 2000-03-01, after the `remsecs` fix-up) to
+    `(years, months, remdays)` as they stand just before the final `as u16` / `as u8` casts, i.e. `years` still
+    relative to 2000, `months` relative to March (−2 … 9), `remdays` the zero-based day of the month. -/
+def dateOfDays (days : Int) : Outcome (Int × Int × Int) :=
   let qc0 := days.tdiv 146097
   let rd0 := days.tmod 146097
   let remdays := if rd0 < 0 then rd0 + 146097 else rd0
@@ -128,8 +123,21 @@ def toPartsO (t : Nat) : Outcome Parts :=
   | .err => .err
   | .ok (months, remdays) =>
     let months : Int := months
-    let years := if months ≥ 10 then years + 1 else years
-    let months := if months ≥ 10 then months - 12 else months
+    if months ≥ 10 then .ok (years + 1, months - 12, remdays) else .ok (years, months, remdays)
+
+/-- `Timestamp::to_parts` (:262-337) for the instant `t` ns. -/
+def toPartsO (t : Nat) : Outcome Parts :=
+  let secs := t / NANOS
+  let nanos := t % NANOS
+  -- LEAPOCH_SECS / 86400 = 11017 (2000-03-01)
+  let days0 : Int := ((secs / 86400 : Nat) : Int) - 11017
+  let remsecs0 : Int := ((secs % 86400 : Nat) : Int)
+  let remsecs := if remsecs0 < 0 then remsecs0 + 86400 else remsecs0
+  let days := if remsecs0 < 0 then days0 - 1 else days0
+  match dateOfDays days with
+  | .panic => .panic
+  | .err => .err
+  | .ok (years, months, remdays) =>
     .ok {
       years := (years + 2000).toNat
       months := (months + 3).toNat
